@@ -1,7 +1,7 @@
 """C18 - the TCP client is connected exactly between connect and disconnect.
 
 Model checking of the client lifecycle on the real SwitcherType1Api / SwitcherType2Api:
-every sequence of actions up to depth D (quick 4, thorough 6) over
+every sequence of actions up to depth D (quick 4, thorough 5, plus depth 6 over six core actions) over
     connect (accepted) | connect (refused) | operation that succeeds | operation that raises on a
     garbage reply | operation that raises on a bad argument | `async with` whose body succeeds |
     `async with` whose body raises (an Exception, an OSError subclass, a BaseException) | `async with` whose connect is refused | the device drops the
@@ -62,7 +62,11 @@ BODY_EXC = {"ctx_raise": Boom, "ctx_raise_os": TimeoutError, "ctx_raise_conn": C
 
 
 def depth(tier):
-    return 6 if tier == "thorough" else 4
+    return 5 if tier == "thorough" else 4
+
+
+# thorough also runs depth 6 over the actions that change or test the connection state
+CORE_ACTIONS = ["connect", "refused", "op_ok", "ctx_raise_conn", "drop", "disconnect"]
 
 
 def enabled(model, a):
@@ -93,8 +97,9 @@ def model_next(m, a):
 M0 = {"connected": False, "live": False, "dropped": False}
 
 
-def sequences(prefix, max_len):
+def sequences(prefix, max_len, acts=None):
     """All enabled action sequences extending `prefix` up to max_len (prefix itself included if enabled)."""
+    acts = acts or ACTIONS
     m = dict(M0)
     for a in prefix:
         if not enabled(m, a):
@@ -104,7 +109,7 @@ def sequences(prefix, max_len):
     def rec(seq, m):
         yield seq
         if len(seq) < max_len:
-            for a in ACTIONS:
+            for a in acts:
                 if enabled(m, a):
                     yield from rec(seq + [a], model_next(m, a))
 
@@ -484,6 +489,10 @@ def jobs(tier, seed):
             for b in ACTIONS:
                 js.append({"part": "seq", "kind": kind, "prefix": [a, b], "depth": depth(tier)})
         js.append({"part": "short", "kind": kind})
+        if tier == "thorough":
+            for a in CORE_ACTIONS:
+                for b in CORE_ACTIONS:
+                    js.append({"part": "seq", "kind": kind, "prefix": [a, b], "depth": 6, "core": True})
         js.append({"part": "bfs", "kind": kind})
     js.append({"part": "tcp"})
     for kind in (1, 2):
@@ -523,7 +532,9 @@ def run_job(job):
     if job["part"] == "short":
         seqs = [[a] for a in ACTIONS if enabled(M0, a)] + [[]]
     else:
-        seqs = list(sequences(job["prefix"], job["depth"]))
+        seqs = list(sequences(job["prefix"], job["depth"], CORE_ACTIONS if job.get("core") else None))
+        if job.get("core"):
+            seqs = [q for q in seqs if len(q) == 6]  # the shorter ones are in the full-alphabet jobs
     for actions in seqs:
         case = {"part": "seq", "kind": kind, "actions": actions}
         executed, complete = run_history(kind, actions, res, case)
